@@ -123,3 +123,40 @@ def _struct_fields(ctx: Ctx) -> None:
         ok = bool(loops) and visits and not early and not prunes
     ctx.check(ok, "R-C24.8", f"{qf.qualname}#looks-into-struct-fields", qf.where, facts,
               "a qubit inside a struct field is not found: passing such a struct to a non-unitary function in a unitary context is accepted")
+    _type_variables(ctx, qf)
+
+
+def _type_variables(ctx: Ctx, qf) -> None:
+    """A value whose type is a type variable that can be instantiated with a qubit-holding type (i.e. a variable that is not
+    copyable) must count as possibly quantum: the arm of the finder for `BoundTypeVar` is interpreted on a non-copyable variable and
+    has to report a find (raise the finder's flag).  Nothing is demanded for copyable variables (they cannot hold a qubit)."""
+    from ..absint.minieval import Unsupported
+    from ..absint.pyeval import PyEval, Raised, Tok
+
+    idx = ctx.idx
+    key = f"{qf.qualname}#non-copyable-type-variable-may-hold-a-qubit"
+    arm = None
+    for m in qf.methods.values():
+        ann = m.node.args.args[1].annotation if len(m.node.args.args) > 1 else None
+        if ann is not None and "BoundTypeVar" in {x.split(".")[-1] for x in ast.unparse(ann).replace(" ", "").split("|")}:
+            arm = m
+    if arm is None:
+        ctx.violation("R-C24.8", key, qf.where, {"arm_for_BoundTypeVar": None, "default_arm": "continue the descent (a variable has no children): not a qubit"},
+                      "an argument typed by a non-copyable type variable counts as classical: `g(x)` with `x: T` and g without flags is accepted in a "
+                      "control/dagger/power function, and instantiating T with qubit runs a non-unitary operation inside it")
+        return
+    ps = [a.arg for a in arm.node.args.args]
+    found = Tok("FoundFlag", __exception__="FoundFlag", __ident__=1)
+    me = Tok("finder", FoundFlag=found, __classes__=qf.mro(), __ident__=1)
+    var = Tok("T", __class__="BoundTypeVar", copyable=False, droppable=False, __ident__=1)
+    try:
+        out = PyEval(idx, qf.module.name, max_depth=4).run(arm.node.body, {ps[0]: me, ps[1]: var})
+        raised = out[0] == "raise"
+    except Raised:
+        raised = True
+    except Unsupported as e:
+        ctx.undecided("R-C24.8", key, arm.where, str(e))
+        return
+    ctx.check(raised, "R-C24.8", key, arm.where, {"non_copyable_variable_reported": raised},
+              "an argument typed by a non-copyable type variable counts as classical: `g(x)` with `x: T` and g without flags is accepted in a "
+              "control/dagger/power function, and instantiating T with qubit runs a non-unitary operation inside it")
